@@ -8,7 +8,7 @@
                                                  the action list must EQUAL the recorded log
      H <T3> <T6> <NH> | <log>                    concurrent history: ok_C06 must accept the recorded log
      K <T3> <T6> <NH> | <log>                    same, peer also reuses live system bytes in control
-                                                 responses (known finding C06-nil-nil tolerated, named)
+                                                 responses
      E <T3> <T6> <NH> | <log>                    C07 e2e history: ok_C07 must accept the recorded log
      T <T3> <T6> <NH> <actions> | <log>          C07 deterministic scenario (equality, as S)
 
@@ -134,7 +134,9 @@ let obs_equal (m : obs) (i : obs) : bool =
     Z.eqb a b && k = k' && frame_eqb { f with f_sys = g.f_sys } g
   | _ -> obs_str m = obs_str i
 
-let cfg_of t3 t6 nh = { t3 = z_of_string t3; t6 = z_of_string t6; nH = z_of_string nh }
+(* the CURRENT step function: the sender ignores a routed control response (fx) and the registry is
+   data-only for data transactions (dW) *)
+let cfg_of t3 t6 nh = { t3 = z_of_string t3; t6 = z_of_string t6; nH = z_of_string nh; dW = true }
 
 let equal_logs (model : obs list) (impl : obs list) : string option =
   let rec go i a b =
@@ -149,16 +151,9 @@ let equal_logs (model : obs list) (impl : obs list) : string option =
 let scenario cfg acts impl : string option =
   let acts = List.map action_of (split_semi acts) in
   let impl = normalise (List.map obs_of (split_semi impl)) in
-  let try_fx fx =
-    match run fx cfg (init Z0) acts with
-    | None -> Some "model: action list not enabled"
-    | Some (_, os) -> equal_logs (normalise os) impl in
-  match try_fx false with
-  | None -> None
-  | Some cur ->
-    (match try_fx true with
-     | None -> None     (* the repaired step function explains the run: the repair is in the tree *)
-     | Some fixed -> Some (Printf.sprintf "current-model: %s / repaired-model: %s" cur fixed))
+  match run true cfg (init Z0) acts with
+  | None -> Some "model: action list not enabled"
+  | Some (_, os) -> equal_logs (normalise os) impl
 
 (* run a monitor over a recorded log; [tolerate] names failures that are a listed known finding *)
 let judge (chk : mon -> obs -> bool) (explain : mon -> obs -> string)
@@ -180,18 +175,6 @@ let explain07 m o =
   String.concat "," (List.filter (fun s -> s <> "")
     [ (if chk_gate m o then "" else "gate"); (if chk_declared m o then "" else "declared-condition");
       (if chk_inbound m o then "" else "inbound/pipeline") ])
-
-(* known finding C06-nil-nil: (nil, nil) after a control response reusing the call's system bytes *)
-let nilnil_known cfg m o =
-  match o with
-  | ORet (id, ROk None, _) ->
-    (match mc_get id m.m_calls with
-     | Some c ->
-       chk_uniq m o && chk_recip cfg m o &&
-       List.exists (fun x -> Z.eqb x.mf_f.f_pt Z0 && Z.eqb x.mf_f.f_sys c.mc_msg.f_sys &&
-                             List.exists (fun s -> Z.eqb x.mf_f.f_st (z_of_int s)) [2; 4; 6]) m.m_frames
-     | None -> false)
-  | _ -> false
 
 let check _ln line =
   let (lhs, rhs) = split_bar line in
@@ -216,7 +199,7 @@ let check _ln line =
     judge (chk_C06 cfg) (explain06 cfg) (fun _ _ -> false) (List.map obs_of (split_semi rhs))
   | ["K"; t3; t6; nh] ->
     let cfg = cfg_of t3 t6 nh in
-    judge (chk_C06 cfg) (explain06 cfg) (nilnil_known cfg) (List.map obs_of (split_semi rhs))
+    judge (chk_C06 cfg) (explain06 cfg) (fun _ _ -> false) (List.map obs_of (split_semi rhs))
   | ["E"; _; _; _] ->
     judge chk_C07 explain07 (fun _ _ -> false) (List.map obs_of (split_semi rhs))
   | _ -> Some "unparsable case line"
